@@ -28,9 +28,11 @@ theorem modification_routes_in_modification_sections :
     (ffTab.all fun e => routeOf ffTab e.path != .modification || e.path.head? == some "modification") = true := by
   decide +kernel
 
-/-- the one path under `[ link ]` that is NOT routed to the link: `[ pairs_nb ]` writes to the current
-block (`context_type='block'` in the registration) - reported as a defect, transcribed as it is -/
-theorem link_pairs_nb_routed_to_block : routeOf ffTab ["link", "pairs_nb"] = .block := by decide +kernel
+/-- conversely every registered section under `[ link ]` writes to the link (before the repair of
+F-C13-3 `[ link ] [ pairs_nb ]` wrote to the current block) -/
+theorem link_sections_routed_to_link :
+    (ffTab.all fun e => e.path.head? != some "link" || routeOf ffTab e.path == .link) = true := by
+  decide +kernel
 
 /-- every fixed-arity interaction has at least one atom and is a registered subsection of blocks and links -/
 theorem natoms_positive : (C13.Gen.natoms.all fun e => decide (1 ≤ e.2)) = true := by decide +kernel
